@@ -51,7 +51,9 @@ def _prefix_ops(mab, cf, labels, fitted):
     arms = list(mab.arms)
     out = [data.batch("fit", arms, [0, 1, 0, 1, 0, 1], data.R6, data.X6, cf),
            data.batch("partial_fit", arms, [1, 0, 1], [1, 1, 0], [[1, 1], [2, 0], [0, 0]], cf),
-           data.batch("partial_fit", arms, [0, 0], [0, 1], [[0, 1], [0, 1]], cf)]
+           data.batch("partial_fit", arms, [0, 0], [0, 1], [[0, 1], [0, 1]], cf),
+           # an arm observed with reward 0 only: its sums are zero although it has data
+           data.batch("fit", arms, [0, 1, 0, 1], [0, 1, 0, 0], [[1, 0], [0, 1], [1, 1], [2, 1]], cf)]
     na = _new_arm(labels)
     if na not in arms:
         out.append(["add_arm", na])
